@@ -7,7 +7,7 @@
    functions are total, and [at_rest] shows the decode loop stops only where no
    further frame is decodable (its fuel is never what stops it). *)
 From MC Require Import Model.Base Model.Generated Model.Store Model.Codec Model.Handler Model.Conn
-  Spec.Quiet Proofs.CodecLemmas Proofs.Framing Proofs.Chunking Proofs.PC10 Proofs.PDispatch.
+  Spec.Quiet Proofs.CodecLemmas Proofs.Framing Proofs.Chunking Proofs.PC10 Proofs.PDispatch Proofs.PGuards Model.RustInt.
 
 (* for every codec state, buffer and limit *)
 Theorem C10_decode_never_panics : forall c src, snd (decode c src) <> DPanic.
@@ -73,3 +73,45 @@ Theorem C10_decode_dispatch_is_source : forall h body,
   parse_body h body = run_parser (source_parser_id (h_opcode h)) h body.
 Proof. exact parse_body_is_source_dispatch. Qed.
 Print Assumptions C10_decode_dispatch_is_source.
+
+(* ---- the tests of the source itself. tools/rsexpr.py translates the bodies of
+   header_valid and request_valid (guards in order, Rust integer types, overflow =
+   None) into Generated.src_header_valid / src_request_valid on every run; for every
+   header that 24 bytes can encode they evaluate, without overflow, to what the
+   model's tests say ([src_X_ok = false]: the translator did not recognise the
+   function's shape, the obligation does not apply and the correspondence check
+   alone ties it to the model — the check reports which) *)
+Theorem C10_header_fields_in_range : forall b h rest,
+  header_of_bytes b = Some (h, rest) -> header_in_range h.
+Proof. exact header_of_bytes_in_range. Qed.
+Print Assumptions C10_header_fields_in_range.
+
+Theorem C10_header_valid_is_source : src_header_valid_ok = true ->
+  forall h, header_in_range h ->
+  src_header_valid (h_magic h) (h_opcode h) (h_dtype h) = Some (header_valid h).
+Proof. exact header_valid_is_source. Qed.
+Print Assumptions C10_header_valid_is_source.
+
+Theorem C10_request_valid_is_source : src_request_valid_ok = true ->
+  forall h kr, header_in_range h ->
+  src_request_valid (h_extlen h) (h_keylen h) (h_bodylen h) kr = Some (request_valid h kr).
+Proof. exact request_valid_is_source. Qed.
+Print Assumptions C10_request_valid_is_source.
+
+(* the 24 header bytes are read field by field in the order and widths of the source *)
+Theorem C10_request_layout_is_source : src_request_layout_ok = true ->
+  forall b, header_of_bytes b =
+            match read_layout src_request_layout b with
+            | Some (vs, rest) => Some (header_of_fields vs, rest)
+            | None => None
+            end.
+Proof. exact request_layout_is_source. Qed.
+Print Assumptions C10_request_layout_is_source.
+
+(* the buffer is reserved only behind a comparison with the item size limit: the
+   codec's parse_header (site 1) has one, and it is the model's comparison *)
+Theorem C10_reserve_is_guarded : src_size_guards_ok = true ->
+  In 1 src_size_guard_sites /\
+  Forall (fun g => forall body limit, g body limit = Some (limit <? body)) src_size_guards.
+Proof. exact reserve_is_guarded. Qed.
+Print Assumptions C10_reserve_is_guarded.
